@@ -301,7 +301,7 @@ def plan_stmt(plans):
         return []   # never write a static that no reachable code reads (see StrDecl.prelude)
     st = ["unsafe { crate::support::strmodel::TRIM_CALLS = 0; }"]
     for i, (a, b) in enumerate(plans):
-        st.append("unsafe { crate::support::strmodel::P%dS = %d; crate::support::strmodel::P%dE = %d; }" % (i, a, i, b))
+        st.append("unsafe { crate::support::strmodel::P%dS = %d; crate::support::strmodel::P%dE = %d; }%s" % (i, a, i, b, "  // EMPTY-TEXT: this trim call yields an empty text" if a == b else ""))
     return st
 
 
@@ -310,7 +310,7 @@ def expect_bytes(cells, var="exp"):
     for c in cells:
         bs += c.rust_bytes()
     if not bs:
-        return "let %s: [u8; 1] = [0];  // (empty expectation; no zero-sized object, see input_builder)" % var
+        return "let %s: [u8; 1] = [0];  // EMPTY-TEXT (empty expectation; no zero-sized object, see input_builder)" % var
     return "let %s: [u8; %d] = [%s];" % (var, len(bs), ", ".join(bs))
 
 
